@@ -39,6 +39,8 @@ Classes ==
        Cls("data_35", "data", FALSE, "na", "na", "na"),
        Cls("data_unknown_hashes", "data", FALSE, "na", "na", "na"),
        Cls("data_ping_valid", "data", TRUE, "na", "na", "na"),
+       Cls("data_ping_from_own_ping", "data", TRUE, "na", "na", "na"),
+       Cls("data_ping_from_own_unreach", "data", TRUE, "na", "na", "na"),
        Cls("data_to_unreach_garbage", "data", TRUE, "na", "na", "na"),
        Cls("data_to_unreach_wrongtypes", "data", TRUE, "na", "na", "na"),
        Cls("data_to_unreach_valid", "data", TRUE, "na", "na", "na"),
@@ -75,6 +77,12 @@ Classes ==
        \* the session claims to be the node's OTHER, well-behaved peer (complete impersonation), or lies about that
        \* peer's adjacency: refused as already connected / relayed like any third-party update, and the well-behaved
        \* peer's own session is not touched
+       \* absurd link costs: a negative self-loop / negative cycle (the shortest-path computation must still end), zero
+       \* and overflowing costs (1e999 does not decode)
+       Cls("route_negative_selfloop", "route", TRUE, "me", "me", "yes"),
+       Cls("route_negative_edge", "route", TRUE, "me", "me", "yes"),
+       Cls("route_zero_costs", "route", TRUE, "me", "me", "yes"),
+       Cls("route_huge_costs", "route", FALSE, "na", "na", "na"),
        Cls("route_good_fwd", "route", TRUE, "good", "good", "yes"),
        Cls("route_good_fwd_me", "route", TRUE, "good", "me", "yes"),
        Cls("route_good_origin", "route", TRUE, "me", "good", "no"),
